@@ -114,6 +114,13 @@ pub fn run_c18(tier: &str) -> Report {
     let vs: Vec<Viol> = pts.par_iter().flat_map(|&(lon, lat, _)| check_nearest(&f, lon, lat)).collect();
     rep.sink.extend(vs);
     evals += 3 * pts.len() as u64;
+    // the same physical points written with other longitude windings (the selector works on the raw angle):
+    // every point on or beside a face edge / vertex / seam, with +-360, +720 and -1080 degrees
+    let wound: Vec<(f64, f64)> = pts.iter().filter(|p| p.2 != "uniform").flat_map(|&(lon, lat, _)| [(lon + 360.0, lat), (lon - 360.0, lat), (lon + 720.0, lat), (lon - 1080.0, lat)]).collect();
+    let vs: Vec<Viol> = wound.par_iter().flat_map(|&(lon, lat)| check_nearest(&f, lon, lat)).collect();
+    rep.sink.extend(vs);
+    evals += 3 * wound.len() as u64;
+    rep.set("wound_longitude_points", json!(wound.len()));
     let hard = pts.iter().filter(|p| p.2 != "uniform").count() as u64;
     // --- relabelling: 12 faces x 5 quintants / segments
     let origins = a5::core::origin::get_origins();
